@@ -47,6 +47,8 @@ def configs(tier, seed):
                     # the init image is an ITERABLE: handed over as list, tuple, generator, iterator or map object
                     form = ["list", "gen", "tuple", "iter", "map"][(len(out)) % 5]
                     out.append({"size": size, "dw": dw, "gran": gran, "writable": writable, "pat": seed + 1, "init": form})
+    out.append({"size": 128, "dw": 8, "gran": 8, "writable": True, "pat": seed + 1, "init": "list"})
+    out.append({"size": 256, "dw": 32, "gran": 8, "writable": True, "pat": seed + 1, "init": "gen"})
     return out
 
 
